@@ -116,6 +116,43 @@ impl<T: Compile + Clone> Compile for Rc<T> {
     }
 }
 
+/// This function checks whether a consumer mentions one of the given names freely. The translation
+/// places the current continuation under the binders of the source program (the variable of a
+/// `let`, the pattern variables of a `case` clause) without renaming anything, so a continuation
+/// that mentions such a name would be captured by the binder.
+/// - `binders` are the names about to be bound above the continuation.
+/// - `cont` is the continuation.
+pub fn captures<'a>(
+    mut binders: impl Iterator<Item = &'a Var>,
+    cont: &core_lang::syntax::Term<Cns>,
+) -> bool {
+    let mut typed_free_vars = BTreeSet::new();
+    cont.typed_free_vars(&mut typed_free_vars);
+    binders.any(|binder| {
+        typed_free_vars
+            .iter()
+            .any(|binding| binding.var.name == *binder)
+    })
+}
+
+/// This function translates a term whose binders would capture the continuation. The continuation
+/// is named by a fresh covariable and stays outside the scope of the binders of the term:
+/// ```text
+/// 〚t〛_{c} = < μ a. 〚t〛_{a} | c >  (a fresh)
+/// ```
+/// - `term` is the term to translate.
+/// - `ty` is the (annotated) type of the term.
+/// - `cont` is the continuation.
+pub fn compile_outside_cont<T: Compile>(
+    term: T,
+    ty: Option<fun::syntax::types::Ty>,
+    cont: core_lang::syntax::Term<Cns>,
+    state: &mut CompileState,
+) -> core_lang::syntax::Statement {
+    let ty = crate::types::compile_ty(&ty.expect("Types should be annotated before translation"));
+    Cut::new(term.compile(state, ty.clone()), cont, ty).into()
+}
+
 /// This function lifts a consumer to the top-level for sharing, in order to avoid exponential
 /// blowup by duplication. It returns a consumer that calls the lifted consumer.
 pub fn share(
